@@ -100,7 +100,7 @@ type xl struct {
 
 // identifiers the generated text uses itself; a Go variable of such a name gets a trailing underscore
 var xReserved = strings.Fields(`ctl Next Return Panic bindc go_call wrapU wrapS go_len go_nth go_in_range go_slice
- go_slice_ok go_bytes_eqb go_be_u16 go_be_u32 go_be_u64 go_emit_u8 go_emit_u16 go_emit_u32 go_emit_u64 go_emit_bytes go_range go_count go_map_get go_map_set go_make go_iter rd fuel inl inr
+ go_slice_ok go_bytes_eqb go_be_u16 go_be_u32 go_be_u64 go_emit_u8 go_emit_u16 go_emit_u32 go_emit_u64 go_emit_bytes go_range go_count go_map_get go_map_set go_make go_iter rd fuel inl inr go_atomic_cas32 go_atomic_add32
  andb orb negb implb true false tt nil cons list unit bool Z N nat fst snd pair Bool eqb
  fun let in if then else match with end as return forall exists fix cofix Type Prop Set struct where at using for IF
  Definition Fixpoint Record Lemma Theorem out st`)
